@@ -193,7 +193,7 @@ PROPS = {
     "C15": {
         "module": "TcVerif.Props.C15",
         "theorems": ["Tc.C15_slot0", "Tc.C15_no_renumber_stable", "Tc.C15_no_renumber_newcomers_after", "Tc.C15_renumber_compact",
-                     "Tc.C15_renumber_order", "Tc.C15_exact", "Tc.C15_commit_adds_at_end", "Tc.C15_commit_adds_iff"],
+                     "Tc.C15_renumber_order", "Tc.C15_exact", "Tc.C15_commit_adds_at_end", "Tc.C15_commit_adds_iff", "Tc.C15_no_duplicates"],
         "leanchecker_modules": [],
         "runs": [
             {"family": "rep", "flags": [], "quick": {"cases": 400, "max_len": 25}, "thorough": {"cases": 20000, "max_len": 60}},
